@@ -21,6 +21,10 @@ ALL_CLAIMED = ["C03","C04","C07","C10","C12","C16","C17","C18","C20"]
 TRUST = "Trusted: the simulator stubs (fidelity rules in DESIGN.md §2.3), the seam rewriter (its report of unseamed sites is in the evidence), the harness's own reference codec/models. Sampling, not proof."
 
 CLAIMED = {
+ "C12": dict(engine="wire-world", cat="exploration",
+   text="Seeded simulated exchanges: envelopes round-tripped through the value-based and streaming codecs and compared byte for byte with an independent encoder; a client and a server exchanging requests in the three framings through DecodeRequest or ReadRequest, over simulated readers and over a live simulated pipe written in seeded chunks by a client task, with the reply decoded by an independent client of that framing; and agreement of the two request APIs on arbitrary bytes under seeded delivery schedules, peer death and I/O errors.",
+   ref="DESIGN.md §4 C12", note=TRUST+" Legacy names stay below 2^24 bytes; a stream that ends early is judged as the shorter input it is; nothing is demanded when an injected I/O error hits the two-byte framing peek.",
+   tech="deterministic simulation of transport and peer (seeded segmentation, live pipe between client and server tasks, fault injection), reference codec as oracle"),
  "C03": dict(engine="wire-world", cat="exploration",
    text="Seeded search over (wire type, byte string) inputs, each decoded by the random-access reader with all lazy containers forced and then re-decoded and skipped under seeded delivery schedules of a simulated reader (segmentation incl. 1-byte and zero-length reads, EOF delivered with data, seekable or not) and injected faults (peer death at an offset, I/O error at an offset); invariants: no panic, bounded reader calls, canonical re-encoding by an independent encoder and by the library, skip/decode length agreement, delivery independence, faults inside the value are never accepted.",
    ref="DESIGN.md §4 C03", note=TRUST+" The call budget 1024*len+65536 stands for termination; nothing is required of Skip on a seekable reader that was cut short.",
